@@ -1,6 +1,7 @@
 package c04
 
 import (
+	"os"
 	"encoding/json"
 	"fmt"
 	"regexp"
@@ -63,6 +64,9 @@ func classOf(line string) string {
 // reader or writer loses all leaves of such a group together.
 func coarse(class string) string {
 	class = strings.TrimPrefix(class, "properties[].")
+	if os.Getenv("VERIF_FINE") == "1" {
+		return class
+	}
 	for _, c := range []struct{ marker, name string }{{"schema.map.item_schema.", "map-item"}, {"schema.array.items.", "array-item"}} {
 		if i := strings.Index(class, c.marker); i >= 0 {
 			rest := strings.Split(class[i+len(c.marker):], ".")
@@ -76,9 +80,18 @@ func coarse(class string) string {
 				return "map-item"
 			case strings.HasSuffix(sub, ".list_rules"):
 				return c.name + ":list_rules"
-			default:
-				// the array annotation replaces the item's own (j5.ext.v1.field)
+			case sub == "type" || sub == "date.rules" || sub == "decimal.rules" || sub == "key.format":
+				// the array annotation replaces the item's own (j5.ext.v1.field):
+				// what the item keeps there (date and decimal rules, the key format,
+				// and with it the distinction between a key and a string) is lost
 				return c.name + ":j5-annotation"
+			case sub == "object.rules" || strings.HasSuffix(class, ".integer.rules.multiple_of"):
+				// rules the compiler has no target for are lost wherever they are written
+				return "schema." + strings.Join(strings.Split(class[i+len(c.marker):], "."), ".")
+			default:
+				// anything else an array item declares (validate rules, entity-key
+				// annotations, ext) is read back on the unchanged tree: its own class
+				return c.name + ":" + strings.Join(strings.Split(class[i+len(c.marker):], "."), ".")
 			}
 		}
 	}
@@ -192,7 +205,19 @@ func compare(stage string, want, got map[string][]string) (fails []vf.Failure) {
 			if paired[e] {
 				continue
 			}
-			add("invented|"+classOf(e), "%s: read back but not declared: %s", stage, e)
+			cls := classOf(e)
+			// an array item that loses its key annotation (the known j5-annotation
+			// loss) comes back as a string carrying the custom key pattern: the same
+			// loss seen from the other side, only when the lost line pairs with it
+			if strings.Contains(e, ".schema.array.items.string.rules.pattern = ") {
+				twin := strings.Replace(e, ".items.string.rules.pattern = ", ".items.key.format.custom.pattern = ", 1)
+				for _, m := range missing {
+					if m == twin {
+						cls = "array-item:j5-annotation"
+					}
+				}
+			}
+			add("invented|"+cls, "%s: read back but not declared: %s", stage, e)
 		}
 	}
 	for k := range got {
